@@ -318,6 +318,17 @@ func (s *Service) Stop(clearFutures bool) bool {
 	if clearFutures {
 		s.futureStore.Protect(false)
 		s.futureStore.Clear()
+
+		// cancel the futures of commands that are still queued
+	drain:
+		for {
+			select {
+			case cmd := <-s.commandQueue:
+				cmd.future.Cancel(nil)
+			default:
+				break drain
+			}
+		}
 	}
 
 	return true
